@@ -12,7 +12,7 @@ LEVEL = "exploration"
 RULE = ("Hypothesis-generated pushes: content size from a boundary table around chunk size c and maxdata m "
         "{0,1,c-1,c,c+1,2c,m-9,m-8,m-7,m,3.5c,..} U small ints U 1-3 MiB; maxdata from {4 KiB..1 MiB} U ints; device path (non-ASCII, up to ~1000 bytes); "
         "st_mode; mtime (0 and 32-bit); source in {temp file, BytesIO, temp directory with 1-4 files (cwd elsewhere or inside)}; callback in "
-        "{none, recording, raising Exception, raising a BaseException subclass, re-entering the device with stat() (sync)}; withheld sync OKAY; both APIs. Oracle: the simulator's sync service reassembles SEND/DATA/DONE; sizes judged per packet; "
+        "{none, recording, raising Exception, raising a BaseException subclass, re-entering the device with stat() (sync)}; withheld sync OKAY; a second connect() (no close) to a device announcing another maxdata before the push; both APIs. Oracle: the simulator's sync service reassembles SEND/DATA/DONE; sizes judged per packet; "
         "metamorphic: host packets with callback == without. Non-trivial: >=2 host WRTEs, or a directory, or a callback. Distinct = case hash.")
 ASSUMPTIONS = ["device simulator sync service per AOSP SYNC.TXT", "virtual clock for mtime=0"]
 
@@ -59,14 +59,22 @@ def cases(draw):
            "zero_clse_reply": draw(st.booleans()), "services": {}}
     if draw(st.sampled_from([False] * 11 + [True])) and kind != "dir":
         dev["push_withhold"] = True
+    ops = [op]
+    if draw(st.sampled_from([False, False, False, True])):
+        # the object is connected a second time (no close() in between) and the device now announces another maxdata:
+        # the limits of the *current* connection apply to the push
+        m1 = draw(sc.maxdata())
+        dev["maxdata_by_connection"] = [m1, m]
+        first = {"op": "push", "src": {"kind": "bytesio", "content": {"pat": b"1st", "n": draw(st.sampled_from([0, 5, 70000]))}}, "path": "/first", "mode": 0o100644, "mtime": 1, "cb": None}
+        ops = [first, {"op": "connect"}, op]
     return {"api": draw(st.sampled_from(["sync", "async"])), "device": dev, "dev_tape": draw(sc.dev_tape(12)),
-            "transport": {"flavour": draw(sc.flavour())}, "connect": {}, "ops": [op],
+            "transport": {"flavour": draw(sc.flavour())}, "connect": {}, "ops": ops,
             "t0": draw(st.sampled_from([1000000.0, 1700000000.75, 4294967290.5]))}
 
 
 def check_case(case):
     out = runner.run(case)
-    op = case["ops"][0]
+    op = case["ops"][-1]
     res = out.results[-1]
     sim = out.sim
     info = {"classes": [out.api, "src:" + op["src"]["kind"], "cb:%s" % op["cb"]]}
@@ -76,6 +84,9 @@ def check_case(case):
     for v in sim.violations:
         if v.rule in ("write-exceeds-maxdata", "sync-data-exceeds-64k"):
             return Violation(v.rule, repr(v)), info
+    if len(case["ops"]) > 1:
+        # judge the records of the last push only (sims keep one list per simulator)
+        sim.pushes = [p_ for p_ in sim.pushes if not p_["spec"].startswith(b"/first,")]
     withheld = case["device"].get("push_withhold")
     if withheld:
         info["classes"].append("okay-withheld")
@@ -132,6 +143,8 @@ def check_case(case):
         for rec in sim.pushes:
             dpath = rec["spec"].rsplit(b",", 1)[0].decode("utf8")
             calls = by_path.get(dpath, [])
+            if any(not isinstance(n, int) or isinstance(n, bool) for n, _ in calls):
+                return Violation("callback-byte-counts", "callback received a byte count that is not an int: %r" % ([n for n, _ in calls][:4],)), info
             if sum(n for n, _ in calls) != len(rec["content"]):
                 return Violation("callback-byte-counts", "callback saw %d bytes for %r, file has %d" % (sum(n for n, _ in calls), dpath, len(rec["content"]))), info
             if any(t != len(rec["content"]) for _, t in calls):
@@ -146,7 +159,7 @@ def check_case(case):
         case2 = dict(case)
         op2 = dict(op)
         op2["cb"] = None
-        case2["ops"] = [op2]
+        case2["ops"] = case["ops"][:-1] + [op2]
         out2 = runner.run(case2)
         a = [(p.cmd, p.arg0, p.arg1, p.data) for p in out.host_packets()]
         b = [(p.cmd, p.arg0, p.arg1, p.data) for p in out2.host_packets()]
@@ -162,6 +175,8 @@ def check_case(case):
         info["classes"].append("MiB+")
     if op["mtime"] == 0:
         info["classes"].append("mtime0")
+    if len(case["ops"]) > 1:
+        info["classes"].append("second-connect-other-maxdata")
     if any(len(w) >= case["device"]["maxdata"] - 2 for st_ in out.op_streams[-1] for w in st_.host_writes):
         info["classes"].append("wrte-within-2-of-maxdata")
     info["classes"].append("maxdata<=64K" if case["device"]["maxdata"] <= 65536 else "maxdata>64K")
